@@ -597,6 +597,8 @@ class Prov:
                 if base[0] == "agg" and base[1] in ("tuple", "adt", "closure") and e["f"] < len(base[3]) \
                         and base[1] != "closure":
                     base = base[3][e["f"]]
+                elif "a" in e:
+                    base = Origin(("field", base, name, e["a"], e.get("v")))
                 else:
                     base = Origin(("field", base, name))
             elif "d" in e:
